@@ -273,14 +273,27 @@ def conv_dm(kind, x):
     return cs.DM(float(x))
 
 
+class ArgumentModified(Exception):
+    pass
+
+
 def call(engine, prim, args, which, shape=None):
     grp, name = prim.split(".")
     f = getattr(getattr(engine, grp), name)
     kinds = KINDS[prim]
     if which == "np":
         cargs = [conv_np(k, a, shape) for k, a in zip(kinds, args)]
-    else:
-        cargs = [conv_dm(k, a) for k, a in zip(kinds, args)]
+        snap = [c.copy() if isinstance(c, np.ndarray) else c for c in cargs]
+        r1 = np.array(f(*cargs), dtype=float, copy=True)
+        # same value twice from the same argument objects, and the arguments are left untouched
+        r2 = np.asarray(f(*cargs), dtype=float)
+        for c, s0 in zip(cargs, snap):
+            if isinstance(c, np.ndarray) and not np.array_equal(c, s0, equal_nan=True):
+                raise ArgumentModified(f"argument changed from {s0.tolist()} to {c.tolist()}")
+        if r1.shape != r2.shape or not np.array_equal(r1, r2, equal_nan=True):
+            raise ArgumentModified(f"second evaluation from the same argument objects gives {r2.tolist()}, the first gave {r1.tolist()}")
+        return r1
+    cargs = [conv_dm(k, a) for k, a in zip(kinds, args)]
     return f(*cargs)
 
 
@@ -368,8 +381,8 @@ def explore(tier, seed, nproc):
     for prim in PRIMS:
         items += [(prim, i, 4, None) for i in range(4)]
     dmax = 2 if tier == "quick" else 3
-    for N in ((3,) if tier == "quick" else (1, 3)):
-        items += [("links.step_speed", i, 32, (dmax, N)) for i in range(32)]
+    for N in (1, 3):
+        items += [("links.step_speed", i, 32, (dmax if (N == 3 or tier != "quick") else 1, N)) for i in range(32)]
     items.append(("engine.max/vcat", 0, 1, None))
     rot = seed % len(items)
     items = items[rot:] + items[:rot]
